@@ -26,7 +26,7 @@ REQUIRED_REACH = ["images.Images.serialize", "images.Images.deserialize", "image
 REQUIRED_MONITORS = ["M1-text-equals-description", "M3-reload-equals-description", "M4-redump-identical", "M5-file-roundtrip"]
 FORCES = ["size-large", "volume-null", "volume-set", "implant-null", "implant-set", "checksums-several", "unified",
           "mtime-zero", "subvariant-empty", "shared-object", "many-per-cell", "identity-equal-same-checksums",
-          "empty-manifest"]
+          "empty-manifest", "same-path-other-cell", "near-equal-paths"]
 CLASS_FLOORS = dict((c, 5) for c in FORCES)
 CLASS_FLOORS.update(dict(("type-" + t, 3) for t in domains.IMAGE_TYPES))
 CLASS_FLOORS.update(dict(("format-" + t, 3) for t in domains.IMAGE_FORMATS))
